@@ -225,6 +225,15 @@ def run_one(cfg):
             if not np.array_equal(np.ravel(current_point), np.ravel(bb.u)):
                 bad("not-centred-on-incumbent", f"local fit in {caller} selects the training set around {np.ravel(current_point).tolist()} "
                     f"while the incumbent is {np.ravel(bb.u).tolist()}", f"local_gp_fitting {stats['local_fit']}")
+        if bb is not None and caller in ("_poll_step_", "_search_step_"):
+            at_inc = np.array_equal(np.ravel(current_point), np.ravel(bb.u))
+            if caller == "_poll_step_" or at_inc:
+                st["main_gp"] = id(gp)
+            elif st.get("main_gp") == id(gp):
+                # a TRIAL fit at a search candidate (stochastic targets) must work on a copy: the surrogate kept for ranking and posterior
+                # updates stays conditioned on the neighbourhood of the incumbent when the candidate is rejected
+                bad("trial-fit-on-working-gp", f"the local fit at the search candidate {np.ravel(current_point).tolist()} was applied to the working surrogate itself "
+                    f"(incumbent {np.ravel(bb.u).tolist()})", f"local_gp_fitting {stats['local_fit']}")
         st["last_gsn"] = None
         st["tainted"].discard(id(gp))
         res = o_lgf(gp, current_point, function_logger, *a, **k)
